@@ -68,6 +68,15 @@ pub fn generate_case(prop: &dyn Property, seed: u64, index: u64, tier: Tier) -> 
     if matches!(prop.id(), "C10" | "C11" | "C06" | "C17") && mix(&[seed, prop_tag(prop.id()), index, 0x150]) % 6 == 0 {
         case.set("isolated_runs", 1);
     }
+    // file arguments (in-process checks): one scenario in five names them in a way a path
+    // rarely is in a test - long, with multi-byte characters, or with a comma and a blank
+    if matches!(prop.id(), "C05" | "C06" | "C10" | "C16" | "C17") {
+        match mix(&[seed, prop_tag(prop.id()), index, 0x9a3e]) % 10 {
+            0 => case.set("names", 1),
+            1 => case.set("names", 2),
+            _ => {}
+        }
+    }
     case
 }
 
@@ -121,6 +130,7 @@ pub fn full_check(prop: &dyn Property, case: &Case, ctx: &mut Ctx) -> Result<Opt
     if case.param("aborted_run_before") == 1 {
         aborted_run_before(case, ctx);
     }
+    ctx.name_style = case.param("names").clamp(0, 2) as u8;
     ctx.isolate_runs = case.param("isolated_runs") == 1;
     if ctx.isolate_runs {
         ctx.stats.probe("every run of the scenario in a thread of its own");
